@@ -111,7 +111,7 @@ class Exec:
             if z3.is_app(x):
                 if x.num_args() > 0 and x.decl().kind() == z3.Z3_OP_UNINTERPRETED: apps[i] = x
                 stack.extend(x.children())
-        if not apps: return None
+        if not apps or len(apps) > 24: return None            # many applications (series sums): the pairwise congruence instances would swamp the query
         order = sorted(apps.values(), key=lambda a: len(str(a)) if False else a.get_id())
         pairs = []
         for a in order:
